@@ -716,7 +716,7 @@ def c18(pid, tier, seed, workdir):
            expect_mc_ok(tlc_mc("SharedExpand.tla", "mc/MC_shared3.cfg", workers=4, timeout=600, name="shared3x1"))]
     hits = scan_interior_mutability()
     # (iii) concurrent = sequential on the real code
-    nshards, rounds = (8, 40) if tier == "quick" else (28, 300)
+    nshards, rounds = (10, 100) if tier == "quick" else (28, 400)
     os.makedirs(workdir, exist_ok=True)
     paths = []
     for k in range(nshards):
